@@ -237,6 +237,9 @@ def run(ctx):
         return None
     L.check_queue_pairing(ctx, "C17.R5", sites, mode_of=mode_of,
                           single_consumer_ok=lambda field, pops: all(s["fn"].kind == "dtor" for s in pops if s["concurrent"] is False))
+    # ---------------------------------------------------------------- R7 the caches' queue operations stay atomic
+    import C01
+    C01.check_concurrent_tickets(ctx, fb, "C17.R7", floor=4)
     # ---------------------------------------------------------------- R6 special members
     n6 = L.check_special_members(ctx, "C17.R6", fb, r"^babylon::ObjectPool<.*>::Deleter$")
     ctx.floor("C17.R6", n6, 4, "Deleter move members")
